@@ -18,6 +18,9 @@ func init() {
 	register(&Rule{ID: "C17.R2", Prop: "C17", Floor: 2,
 		Doc: "exclusivity: a pending put removes the pending delete of the key and vice versa",
 		Run: c17r2})
+	register(&Rule{ID: "C17.R5", Prop: "C17", Floor: 1,
+		Doc: "CacheDB.CreateBucket touches the overlay only on the success edge of the backend's CreateBucket",
+		Run: c17r5})
 	register(&Rule{ID: "C17.R4", Prop: "C17", Floor: 2,
 		Doc: "a created bucket accepts every per-key operation: CreateBucket stores an entry in each overlay whose missing entry makes put/delete reject the bucket",
 		Run: c17r4})
@@ -845,4 +848,38 @@ func isNilExpr(f *ir.Func, e ast.Expr) bool {
 	}
 	_, isNil := f.ObjOf(id).(*types.Nil)
 	return isNil
+}
+
+// c17r5: creating a bucket on the caching wrapper asks the backend first. The overlay's CreateBucket never fails and
+// installs fresh, empty pending maps; running it before the backend's (which rejects an existing bucket) wipes the
+// bucket's unflushed puts and deletes on a duplicate create while still returning the backend's error. The overlay is
+// touched only on the success edge of the backend call.
+func c17r5(c *Ctx) {
+	kvv := c.P.Views("chain", ir.ExpandOpt{Key: "kv"})
+	raw := c.P.Fn("chain", "CacheDB", "CreateBucket")
+	f := kvv.Of(raw)
+	if f == nil {
+		f = raw
+	}
+	g := f.Graph()
+	c.VisitGraph(f)
+	ob := c.Ob(f, "backend-create-before-overlay", f.Body.Pos())
+	dbCreate := c.P.Method("chain", "DB", "CreateBucket")
+	memCreate := c.P.Method("chain", "MemDB", "CreateBucket")
+	var succ []*cfgx.Edge
+	for _, call := range f.CallsTo(false, dbCreate) {
+		succ = append(succ, f.CheckOf(call.Expr).Succ...)
+	}
+	overlay := f.CallsTo(false, memCreate)
+	if len(succ) == 0 || len(overlay) == 0 {
+		ob.Unknown("CacheDB.CreateBucket does not call the backend's and the overlay's CreateBucket with the backend's result tested")
+		return
+	}
+	for _, oc := range overlay {
+		if n := g.NodeContaining(oc.Pos()); n == nil || !f.OnlyVia(n, succ) {
+			ob.Bad(nil, "the overlay's CreateBucket at %s runs before (or regardless of) the backend's: creating a bucket that already exists fails, but has by then replaced the bucket's pending puts and deletes with empty maps — unflushed writes are lost on the caching backend only", c.P.Pos(oc.Pos()))
+			return
+		}
+	}
+	ob.OK("the overlay is touched only after the backend accepted the bucket")
 }
